@@ -115,6 +115,16 @@ def answer_version_string(ans):
     return None
 
 
+def other_backend(cases, share, ctx, name):
+    """A share of the cases (by content hash) also against the library started WITHOUT Pydantic (MCP_FORCE_FALLBACK=1) in a worker
+    process; messages of 100 kB and more are left out there (the fallback validator is slow)."""
+    from ..core import sha
+
+    out = [dict(c, backend="fallback") for c in cases if int(sha(c), 16) % share == 1 and len(canon(c)) < 20000]
+    ctx.notes.append(f"{name}: {len(out)} of the cases also run in a worker process with MCP_FORCE_FALLBACK=1 (the library without Pydantic)")
+    return out
+
+
 class ClientInit(Suite):
     name = "client-init"
 
@@ -164,7 +174,8 @@ class ClientInit(Suite):
                     eff = sup if sup is not None else V.server_supported()
                     if ans["k"] == "version" and ans["s"] in eff and c["track"] in (True, False):
                         out.append(dict(c, track=not c["track"]))
-        return V.assign_debug(out + self.extras(rng, budget) + self.extras2(rng, budget), self.static_kind, ctx=ctx, name=self.name)
+        base = V.assign_debug(out + self.extras(rng, budget) + self.extras2(rng, budget), self.static_kind, ctx=ctx, name=self.name)
+        return base + other_backend(base, 30 if budget == "quick" else 40, ctx, self.name)
 
     @classmethod
     def static_kind(cls, case):
@@ -233,6 +244,31 @@ class ClientInit(Suite):
                 for ans in (good, foreign, {"k": "rpc", "code": -32603, "msg": "boom"}):
                     for track in (True, False):
                         add(L, None, ans, raise_on={"where": where, "cls": cls_}, track=track, at=10)
+        # N. declared members of the reply around its payload: "error": null next to a result, "result": null next to an error,
+        #    "method": null, no "jsonrpc" member, members in unusual order with an extra one
+        for envl in ("error-null", "method-null", "no-jsonrpc", "id-last"):
+            for ans in (good, {"k": "version", "s": "1999-12-31"}, foreign):
+                for track in (True, False):
+                    add(L, None, dict(ans, envelope=envl), track=track)
+        for envl in ("result-null", "id-last", "no-jsonrpc"):
+            for ans in ({"k": "rpc", "code": -32602, "msg": "Unsupported protocol version"}, {"k": "rpc", "code": -32603, "msg": "boom"}):
+                add(L, None, dict(ans, envelope=envl))
+        # I. an answer far above every buffer (1 MB), with small foreign messages before it
+        for ans in (good, foreign):
+            add(L, None, dict(ans, extra="megabyte"), track=True)
+            add(L, None, dict(ans, extra="megabyte"), noise=[["notif", 3]], wbuf=0, take=1)
+        if not quick:
+            add(L, None, good, noise=[["notif", 1000]], D=4096)
+        # L. the caller's other task closes the write stream while the notification's send is pending (rendezvous write side)
+        for ans in (good, foreign):
+            for when in (1, 50):
+                for track in (True, False):
+                    add(L, None, ans, wbuf=0, take=None, self_close=when, track=track, at=10)
+        # M. unusual spellings that compare unequal: BOM / zero-width characters around a listed version
+        for v in ("\ufeff2025-06-18", "2025-06-18\ufeff", "2025\u200b-06-18", "2025-06-18\u200e", "２０２５-０６-１８"):
+            add(L, None, {"k": "version", "s": v})
+            add([v, "2025-06-18"], v, {"k": "version", "s": "2025-06-18"}, track=False)
+            add([v, "2025-06-18"], None, {"k": "version", "s": v}, track=False)  # (the batching mode of non-ASCII digit spellings is C13's subject)
         # G. text that looks like syntax: as answered versions, as members of the caller's list, in error messages
         for t in SYNTAX_TEXT:
             add(L, None, {"k": "version", "s": t})
@@ -321,7 +357,7 @@ class ClientInit(Suite):
         return out
 
     def impl_batch(self, cases):
-        return V.run_client(cases)
+        return V.run_split("run_client", cases)
 
     @staticmethod
     def model_answer(case):
@@ -347,6 +383,11 @@ class ClientInit(Suite):
         a = case["ans"]
         if a["k"] == "rpc" and (type(a.get("code")) is not int or not (a.get("msg") is None or isinstance(a.get("msg"), str))):
             return None  # error members outside JSON-RPC's types: oracle only (no success, no notification)
+        if case.get("self_close") is not None:
+            # closing one's own end does not wake a send that is already pending on a rendezvous stream nobody reads: the call stays
+            # pending (never a success) — the write side that never takes the notification
+            return {"m": "version", "op": "clientw", "sup": case["sup"], "pref": self.model_pref(case), "ans": self.model_answer(case),
+                    "take": None}
         ro = case.get("raise_on")
         if ro and (ro["where"] != "send-notification" or ro["cls"] == "TimeoutError"):
             return None  # the caller's own stream object fails before / while waiting: oracle only
@@ -366,6 +407,9 @@ class ClientInit(Suite):
             return None
         if case.get("raise_on") and m["outcome"] == "transport" and o["outcome"] in ("stream-raised", "invalid", "transport"):
             o = dict(o, outcome="transport")  # whichever exception the caller's stream raised (or its failing text produced)
+        if case["ans"]["k"] == "malformed" and m["outcome"] == "invalid" and o["outcome"] == "mismatch":
+            o = dict(o, outcome="invalid")  # a result that does not validate may also surface as the mismatch class (a backend that
+            # coerces the member to text): the property only asks that it is not a success and sends nothing
         if o["outcome"] != m["outcome"]:
             return "outcome class differs"
         if o["outcome"] == "ok" and (o.get("v") != m.get("v") or o.get("type") != "InitializeResult"):
@@ -427,6 +471,8 @@ class ClientInit(Suite):
             return ("initialized-after-failure", f"answer {canon(ans)} ended in {o['outcome']} but the initialized notification was "
                     f"written ({canon(trace)})", {"initialized": 0})
         D = DEFAULT_D if case.get("D") is None else case["D"]
+        if o["outcome"] == "blocked":
+            return None
         if ans["k"] == "version" and ans["s"] not in sup and o["outcome"] != "mismatch" and case.get("at", 10) < D and not case.get("raise_on"):
             return ("foreign-version-not-mismatch", f"supported {sup}: answered version {ans['s']!r} ended in {o['outcome']} "
                     f"{o.get('exc', '')}", {"outcome": "mismatch"})
@@ -469,6 +515,12 @@ class ClientInit(Suite):
             tags.append("result:" + x)
         if "data" in case["ans"]:
             tags.append("error-data")
+        if case["ans"].get("envelope"):
+            tags.insert(0, "envelope:" + case["ans"]["envelope"])
+        if case.get("self_close") is not None:
+            tags.insert(0, "write-stream-closed-by-another-task")
+        if case.get("backend"):
+            tags.insert(0, case["backend"])
         if case.get("raise_on"):
             cls_ = case["raise_on"]["cls"]
             tags.insert(0, "stream-raises:" + case["raise_on"]["where"] + ":" + (cls_ if cls_ in ("Unprintable", "TimeoutError") else "other-class"))
@@ -588,7 +640,8 @@ class SlowWriter(ClientInit):
         ctx.exhaustive_parts.append(
             "slow-writer: write stream buffer 0 / 1 full / 1 empty / 1 full from the start / 100 with 99 and 100 foreign messages x peer "
             "taking the notification 1, T-1, T, T+1, 2T ticks after its answer, never, or closing that direction x 3 orders at equal instants")
-        return V.assign_debug(out, self.static_kind, ctx=ctx, name=self.name)
+        out = V.assign_debug(out, self.static_kind, ctx=ctx, name=self.name)
+        return out + other_backend(out, 24 if budget == "quick" else 6, ctx, self.name)
 
     @staticmethod
     def write_side(case):
@@ -608,6 +661,8 @@ class SlowWriter(ClientInit):
     def compare(self, case, o, m):
         if o.get("harness"):
             return None
+        if case["ans"]["k"] == "malformed" and m["outcome"] == "invalid" and o["outcome"] == "mismatch":
+            o = dict(o, outcome="invalid")  # see ClientInit.compare: a result that does not validate may surface as the mismatch class
         ws = self.write_side(case)
         slow = ws is None or (isinstance(ws, int) and ws >= case["D"] - 1)
         if slow and m["outcome"] in ("ok", "blocked") and o["outcome"] not in ("ok", "blocked"):
@@ -733,10 +788,21 @@ class ClientSequence(ClientInit):
             "previous attempt, silence, answer one tick late, errors, malformed) x 5 list pairings x 3 preferred pairings on one pair of "
             "streams and one tracked client; 9 failure kinds repeated 2-4 times then a success; 2 and 3 connections alive at once, "
             "alternately and concurrently")
-        return V.assign_debug(out, self.static_kind, ctx=ctx, name=self.name)
+        # M. the consumer rewrites the result object it was given; the next call on the same connection must not see that
+        for x in (pool[0], pool[1]):
+            for y in pool:
+                k += 1
+                st = [dict(x, sup=L1, pref=None, mutate_result=True), dict(y, sup=L1, pref=None), dict(x, sup=L1, pref="2024-11-05", mutate_result=True)]
+                for i, stp in enumerate(st):
+                    stp.setdefault("D", 2048)
+                    stp.setdefault("at", 10)
+                    stp["tie"] = TIES[(k + i) % 3]
+                out.append({"steps": st, "share_list": True})
+        out = V.assign_debug(out, self.static_kind, ctx=ctx, name=self.name)
+        return out + other_backend(out, 16 if budget == "quick" else 3, ctx, self.name)
 
     def impl_batch(self, cases):
-        return V.run_client_seq(cases)
+        return V.run_split("run_client_seq", cases)
 
     def model_line(self, case):
         def ans(st):
@@ -786,6 +852,7 @@ class ClientSequence(ClientInit):
 
     def kind(self, case, o):
         tag = ("%d-connections%s/" % (case["conns"], "-concurrent" if case.get("concurrent") else "")) if case.get("conns") else ""
+        tag = (case["backend"] + "/" if case.get("backend") else "") + tag
         return "sequence/" + tag + ">".join(str((s or {}).get("outcome")) for s in o["steps"])
 
     def shrink_candidates(self, case):
